@@ -80,7 +80,7 @@ class Undecided(Exception):
 # --------------------------------------------------------------------------- harness registry
 
 META_RE = re.compile(r"^\s*//@\s*(.*)$")
-FN_RE = re.compile(r"^\s*(?:pub\s+)?fn\s+(c\d\d_\w+)\s*\(")
+FN_RE = re.compile(r"^\s*(?:(?:pub\s+)?fn\s+(c\d\d_\w+)\s*\(|\w+!\(\s*(c\d\d_\w+)\s*,)")
 
 
 def load_harness_registry():
@@ -114,7 +114,7 @@ def load_harness_registry():
                 continue
             m = FN_RE.match(line)
             if m and meta is not None:
-                name = m.group(1)
+                name = m.group(1) or m.group(2)
                 meta.setdefault("kind", "P")
                 meta.setdefault("tier", "quick")
                 meta.setdefault("props", name[:3].upper())
